@@ -76,6 +76,10 @@ pub fn build_so(clang: &str, files: &[(&str, &str)], extra_key: &str) -> Result<
     let dir = cache_root().join(format!("{key:016x}"));
     let so = dir.join("chunk.so");
     if so.exists() {
+        // mark as recently used (see `gc`)
+        if let Ok(c) = std::ffi::CString::new(dir.to_str().unwrap_or("")) {
+            unsafe { libc::utimes(c.as_ptr(), std::ptr::null()) };
+        }
         return Ok(Built { so, dir, cached: true });
     }
     std::fs::create_dir_all(&dir).map_err(|e| format!("mkdir {dir:?}: {e}"))?;
@@ -118,6 +122,24 @@ pub fn build_so(clang: &str, files: &[(&str, &str)], extra_key: &str) -> Result<
     r?;
     std::fs::rename(&tmp, &so).map_err(|e| format!("rename: {e}"))?;
     Ok(Built { so, dir, cached: false })
+}
+
+/// Drop cache entries that no run has used for `max_age_h` hours (generator output changed).
+pub fn gc(max_age_h: u64) {
+    let Ok(rd) = std::fs::read_dir(cache_root()) else { return };
+    let now = std::time::SystemTime::now();
+    for e in rd.flatten() {
+        let old = e
+            .metadata()
+            .and_then(|m| m.modified())
+            .ok()
+            .and_then(|t| now.duration_since(t).ok())
+            .map(|d| d.as_secs() > max_age_h * 3600)
+            .unwrap_or(false);
+        if old {
+            let _ = std::fs::remove_dir_all(e.path());
+        }
+    }
 }
 
 pub fn remove(dir: &Path) {
